@@ -166,23 +166,27 @@ impl Recv {
         counts: &mut Counts,
     ) -> Result<(), RecvHeaderBlockError<Option<frame::Headers>>> {
         tracing::trace!("opening stream; init_window={}", self.init_window_sz);
+        // A promised stream did not count against the limit while it was
+        // reserved, so it is only now that it can turn out to be one too many.
+        // Refuse it before its state changes, so that the RST_STREAM is sent
+        // even if these HEADERS end the stream.
+        if !stream.is_counted
+            && !counts.peer().is_local_init(stream.id)
+            && !counts.can_inc_num_recv_streams()
+        {
+            proto_err!(stream:
+                "recv_headers: pushed stream exceeds the concurrency limit; stream={:?}",
+                stream.id
+            );
+            return Err(Error::library_reset(stream.id, Reason::REFUSED_STREAM).into());
+        }
+
         let is_initial = stream.state.recv_open(&frame)?;
 
         // Informational responses do not transition a remotely reserved stream
         // out of `ReservedRemote`. As a result, `recv_open` reports each of them
         // as initial. Only account for the stream once.
         if is_initial && !stream.is_counted {
-            // A promised stream did not count against the limit while it was
-            // reserved, so it is only now that it can turn out to be one too
-            // many.
-            if !counts.can_inc_num_recv_streams() {
-                proto_err!(stream:
-                    "recv_headers: pushed stream exceeds the concurrency limit; stream={:?}",
-                    stream.id
-                );
-                return Err(Error::library_reset(stream.id, Reason::REFUSED_STREAM).into());
-            }
-
             // TODO: be smarter about this logic
             if frame.stream_id() > self.last_processed_id {
                 self.last_processed_id = frame.stream_id();
